@@ -757,12 +757,12 @@ class HDF5DataFrame(DataFrame):
         # validate groupby keys
         by = val.validate_selected_keys(by, self._columns.keys())
 
-        # the key columns, each as an array (an indexed string field reads as a list of str)
+        # the key columns, each as an array of its own dtype (indexed strings read as a list)
         by_fields_data = [np.asarray(self._columns[k].data[:]) for k in by]
 
         # check if keys is sorted
         if not hint_keys_is_sorted:
-            is_sorted = ops.check_if_sorted_for_multi_fields(np.asarray(by_fields_data))
+            is_sorted = ops.check_if_sorted_for_multi_fields(_stack_key_columns(by_fields_data))
         else:
             is_sorted = True
 
@@ -774,7 +774,7 @@ class HDF5DataFrame(DataFrame):
 
             by_fields_data = [data[sorted_index] for data in by_fields_data]
 
-        spans = ops._get_spans_for_multi_fields(np.asarray(by_fields_data))
+        spans = ops._get_spans_for_multi_fields(_stack_key_columns(by_fields_data))
         
         return HDF5DataFrameGroupBy(self._columns, by, sorted_index, spans)
 
@@ -1007,6 +1007,19 @@ class HDF5DataFrame(DataFrame):
                 print('\n')
         return result
 
+
+
+def _stack_key_columns(columns):
+    """
+    Stack the key columns of a group-by into the 2d array that the sortedness and span kernels take.
+    Columns of one dtype are stacked as they are. Columns of different dtypes have no common dtype
+    that keeps both the order and the distinctness of their values (int64 next to float64 or uint64
+    becomes float64, which merges keys beyond 2^53; numbers next to strings become text and are
+    ordered as text), so each column is replaced by the ranks of its values.
+    """
+    if len(set(c.dtype for c in columns)) > 1:
+        columns = [np.unique(c, return_inverse=True)[1] for c in columns]
+    return np.asarray(columns)
 
 
 class HDF5DataFrameGroupBy(DataFrameGroupBy):
